@@ -187,7 +187,8 @@ class Interp:
             # an unknown call that receives one of the lists lets it escape
             for a in list(e.args) + [k.value for k in e.keywords]:
                 for s, v in self.ev(st, a, depth):
-                    if v[0] == 'list' and s.objs[v[1]].attr is not None and not (isinstance(f, ast.Name) and f.id in ('len', 'any', 'all', 'bool', 'enumerate', 'print', 'str', 'repr', 'min', 'max', 'sum')):
+                    if v[0] == 'list' and s.objs[v[1]].attr is not None and not (isinstance(f, ast.Name) and f.id in ('len', 'any', 'all', 'bool', 'enumerate', 'print', 'str', 'repr', 'min', 'max', 'sum')) \
+                            and ftxt not in ('bisect.bisect', 'bisect.bisect_right', 'bisect.bisect_left', 'bisect_right', 'bisect_left'):
                         st.log.append(('escape', ftxt, getattr(e, 'lineno', None)))
             return [(st, ('opaque', self.subst(st, e)))]
         return [(st, ('opaque', self.subst(st, e)))]
@@ -629,6 +630,14 @@ class Interp:
                     if o.attr is not None and o.attr in self.ordered_attrs:
                         s.log.append(('unordered', f'.append() on the sorted list', line))
                     self._append(s, oid, 'append', call.args[0], line)
+                elif name == 'insert' and len(call.args) == 2 and self._bisect_index(s, call, f.value):
+                    k = self._elem_kind(s, call.args[1])
+                    if k is None:
+                        s.log.append(('unrecognised', 'sorted insertion of something that is not the loop element', line))
+                    else:
+                        self._touch(s, oid, 'insort', line)
+                        if k == 'elem':
+                            o.count = min(2, o.count + 1)
                 elif name in ('insert', 'appendleft') and call.args:
                     if o.attr is not None and o.attr in self.ordered_attrs:
                         s.log.append(('unordered', f'.{name}() on the sorted list', line))
@@ -684,6 +693,18 @@ class Interp:
             return [(s, 'next', None) for s, v in self._call(st, call, h, depth)]
         self.ev(st, call, depth)
         return [(st, 'next', None)]
+
+    def _bisect_index(self, s, call, recv):
+        """is the position argument of `recv.insert(i, x)` the bisect position of x in recv (directly or through a local)?"""
+        idx = call.args[0]
+        if isinstance(idx, ast.Name):
+            v = self.lookup(s, idx.id)
+            idx = v[1] if v is not None and v[0] == 'opaque' and v[1] is not None else idx
+        if not (isinstance(idx, ast.Call) and ast.unparse(idx.func) in ('bisect.bisect', 'bisect.bisect_right', 'bisect.bisect_left', 'bisect', 'bisect_right', 'bisect_left')
+                and len(idx.args) == 2):
+            return False
+        a0 = self.subst(s, idx.args[0]) if not isinstance(idx.args[0], ast.Attribute) else idx.args[0]
+        return ast.unparse(a0) == ast.unparse(recv) and ast.unparse(self.subst(s, idx.args[1])) == ast.unparse(self.subst(s, call.args[1]))
 
     def _for(self, st, loop, depth):
         line = loop.lineno
